@@ -1085,7 +1085,13 @@ mod h3raw {
         let mut buf = vec![0u8; 4096];
         loop {
             match tokio::time::timeout(idle, r.read(&mut buf)).await {
-                Ok(Ok(Some(k))) => out.extend_from_slice(&buf[..k]),
+                Ok(Ok(Some(k))) => {
+                    out.extend_from_slice(&buf[..k]);
+                    // (an endpoint that writes without end: what was read is judged, it is far beyond any scenario's output)
+                    if out.len() > (1 << 20) {
+                        return (out, false);
+                    }
+                }
                 Ok(Ok(None)) => return (out, true),
                 Ok(Err(_)) => return (out, false),
                 Err(_) => return (out, false),
@@ -1106,7 +1112,7 @@ mod h3raw {
         let mut log = vec![json!({"ev": "reset", "scn": scn["id"], "role": if is_client { "client" } else { "server" }, "cfg": {}, "meta": {}, "wt": false})];
         let mut streams: Vec<(u64, Vec<u8>, bool)> = vec![];
         if is_client {
-            let h3task = tokio::spawn(async move {
+            let mut h3task = tokio::spawn(async move {
                 let (mut driver, mut sender) = h3::client::builder().build::<_, _, Bytes>(h3_quinn::Connection::new(h3q)).await.ok()?;
                 let drive = tokio::spawn(async move {
                     let _ = std::future::poll_fn(|cx| driver.poll_close(cx)).await;
@@ -1135,9 +1141,11 @@ mod h3raw {
                 let (b, fin) = drain(rcv, Duration::from_millis(50)).await;
                 streams.push((id, b, fin));
             }
-            let _ = h3task.await;
+            if tokio::time::timeout(CAP * 2, &mut h3task).await.is_err() {
+                h3task.abort();
+            }
         } else {
-            let h3task = tokio::spawn(async move {
+            let mut h3task = tokio::spawn(async move {
                 let mut conn: h3::server::Connection<h3_quinn::Connection, Bytes> = h3::server::builder().build(h3_quinn::Connection::new(h3q)).await.ok()?;
                 let resolver = conn.accept().await.ok()??;
                 let handler = tokio::spawn(async move {
@@ -1182,7 +1190,9 @@ mod h3raw {
                 streams.push((id, b, fin));
             }
             raw.close(VarInt::from_u32(0x100), b"done");
-            let _ = h3task.await;
+            if tokio::time::timeout(CAP * 2, &mut h3task).await.is_err() {
+                h3task.abort();
+            }
         }
         for (id, b, fin) in streams {
             if !b.is_empty() {
@@ -1856,6 +1866,15 @@ mod h3cls {
     }
 }
 
+/// No scenario takes anywhere near this long; one that does is a livelock of the code under test (it is reported as a panic of
+/// the scenario, which no trace specification can explain), not a reason for the check to hang.
+async fn limited<F: std::future::Future<Output = Result<Vec<Value>, String>>>(f: F) -> Result<Vec<Value>, String> {
+    match tokio::time::timeout(Duration::from_secs(90), f).await {
+        Ok(r) => r,
+        Err(_) => panic!("the scenario did not end within 90 s (livelock)"),
+    }
+}
+
 pub fn run(inp: &str, out: &str) -> Result<(), String> {
     let r = BufReader::new(std::fs::File::open(inp).map_err(|e| format!("{inp}: {e}"))?);
     let mut w = BufWriter::new(std::fs::File::create(out).map_err(|e| format!("{out}: {e}"))?);
@@ -1870,17 +1889,17 @@ pub fn run(inp: &str, out: &str) -> Result<(), String> {
         // a panic inside the adapter (outside the calls that are guarded individually) is data, not a tool failure
         let r = catch_unwind(AssertUnwindSafe(|| {
             if scn["fam"] == "H3CLS" {
-                rt.block_on(h3cls::run_scenario(&certs, &scn))
+                rt.block_on(limited(h3cls::run_scenario(&certs, &scn)))
             } else if scn["fam"] == "H3DG" {
-                rt.block_on(h3dg::run_scenario(&certs, &scn))
+                rt.block_on(limited(h3dg::run_scenario(&certs, &scn)))
             } else if scn["fam"] == "H3ERR" {
-                rt.block_on(h3err::run_scenario(&certs, &scn))
+                rt.block_on(limited(h3err::run_scenario(&certs, &scn)))
             } else if scn["fam"] == "H3RAW" {
-                rt.block_on(h3raw::run_scenario(&certs, &scn))
+                rt.block_on(limited(h3raw::run_scenario(&certs, &scn)))
             } else if scn["fam"] == "E2E" {
-                rt.block_on(e2e::run_scenario(&certs, &scn))
+                rt.block_on(limited(e2e::run_scenario(&certs, &scn)))
             } else {
-                rt.block_on(run_scenario(&certs, &scn))
+                rt.block_on(limited(run_scenario(&certs, &scn)))
             }
         }));
         let log = match r {
